@@ -165,3 +165,39 @@ def rel_state(la, lb, sidx, sym_is_end, alloc_b, stats, timeout_ms=30000, idxmap
     if len(d['samples']) < 5:
         d['samples'].append({'pair': key, 'paths_A': len(exa.paths), 'paths_B': len(exb.paths)})
     return findings
+
+
+def rel_start(la, lb, stats, timeout_ms=20000):
+    """<p>_start of both builds on completely arbitrary memory: the post-states must be alpha-related (same values of the outputs that have
+    defaults, same string lengths and bytes incl. the terminator; outputs without a default are indeterminate in both)"""
+    d = stats.d
+    findings = []
+    solver = z3.Solver(); solver.set('timeout', timeout_ms)
+    sx = {'queries': 0, 'solver_time': 0.0}
+    # the same arbitrary memory on both sides (the arrays are named after the struct / the in-struct string fields): two builds that both
+    # leave a field untouched agree on it, a build that leaves it untouched differs from one that initialises it
+    exa = la.call1('start', la.raw_image(), solver, [], sx, max_steps=4000)
+    exb = lb.call1('start', lb.raw_image(), solver, [], sx, max_steps=4000)
+    d['queries'] += sx['queries']; d['solver_time'] += sx['solver_time']
+    key = f"{getattr(la, 'label', '?')}~{getattr(lb, 'cname', '?')}@start"
+    for p in exa.paths:
+        for q in exb.paths:
+            if p.kind != 'RET' or q.kind != 'RET':
+                continue
+            conds = [(nm_, c) for nm_, c in snap_rel_conds(la, lb, la.snapshot(p.mem), lb.snapshot(q.mem), tag='after start: ')
+                     if not (nm_.startswith('after start: value of ') and la.comp.spec[nm_[len('after start: value of '):]].default_value is None)]
+            goal = z3.And(*[c for _, c in conds]) if conds else z3.BoolVal(True)
+            d['obligations'] += 1; d['cov']['pairs'] += 1
+            solver.push(); solver.add(*p.pc, *q.pc, z3.Not(goal))
+            r, mdl = symx.robust_check(solver); d['queries'] += 1
+            solver.pop()
+            if r == z3.unsat:
+                d['discharged'] += 1
+            elif r == z3.unknown:
+                d['inconclusive'].append('C12 ' + key)
+            else:
+                bad = [nm_ for nm_, c in conds if z3.is_false(mdl.eval(c, model_completion=True))]
+                findings.append({'kind': 'c12-diff', 'what': 'representation option changes the parse', 'detail': '; '.join(bad[:3]), 'sym': 'start', 'alloc_b': None,
+                                 'pre': {'state': -1, 'vals': {}, 'strs': {}}, 'start_only': True})
+    d['nontrivial'].append('c12:' + key)
+    return findings
